@@ -34,7 +34,7 @@ REQUIRED = dict(monitors=['fit-names-and-order', 'prior-implied-by-current-setti
                           'boundaries-implied-by-current-settings', 'derived-names', 'write-back-is-identity',
                           'update-sets-fitted-to-prior-transform', 'update-leaves-others-untouched',
                           'unknown-parameter-is-an-error', 'history-log-complete'],
-                classes=['op:failed_compile', 'update:same-container-edited-in-place', 'update:same-vector-after-direct-write', 'op:enable_fit', 'op:disable_fit', 'op:set_mode', 'op:set_boundary', 'op:set_factor_boundary',
+                classes=['op:failed_compile', 'parameter-declared-as-integer', 'update:same-container-edited-in-place', 'update:same-vector-after-direct-write', 'op:enable_fit', 'op:disable_fit', 'op:set_mode', 'op:set_boundary', 'op:set_factor_boundary',
                          'op:set_prior', 'op:enable_derived', 'op:disable_derived', 'op:compile_params',
                          'op:update_model', 'changed-after-first-compile', 'observation-parameter-fitted',
                          'user-prior-other-space', 'bounds-reversed'])
@@ -133,6 +133,11 @@ def make_model(rng):
             break
     world.reset_caches()
     world.install_opacities(spec)
+    t = spec['temperature']
+    if t['kind'] == 'npoint' and rng.random() < 0.5:
+        # node lists typed as whole numbers (Python ints): what is written to a fitted node must come back as written
+        if t['temperature_points'] and spec['pmin'] > 10:        # rounding must keep the nodes distinct and ordered
+            t['integer_nodes'] = True
     m = world.build_model(spec, 'transmission')
     world.add_contributions(m, spec)
     m.build()
@@ -285,7 +290,11 @@ def wl_history(ctx, rng):
     opt = Optimizer('vmon', observed=obs, model=model)
     ref = Ref(model, obs)
     # parameters we play with: positive floats (so that both spaces are valid)
-    pool = [n for n in ref.order if isinstance(ref.p[n]['fget'](), float) and ref.p[n]['fget']() > 0 and n != 'nlayers']
+    def _number(v):
+        return isinstance(v, (int, float, np.integer, np.floating)) and not isinstance(v, (bool, np.bool_))
+    pool = [n for n in ref.order if _number(ref.p[n]['fget']()) and ref.p[n]['fget']() > 0 and n != 'nlayers']
+    if any(isinstance(ref.p[n]['fget'](), (int, np.integer)) for n in pool):
+        ctx.observe('parameter-declared-as-integer')
     k = int(rng.integers(3, min(len(pool), 9) + 1))
     chosen = [pool[i] for i in rng.choice(len(pool), k, replace=False)]
     if rng.random() < 0.7:
